@@ -25,6 +25,10 @@ CLAIMS = {
   "text": "Full proof: from_routes_rule is invariant under any permutation of a match list with unique ids (C11_permutation), because the processing order is the unique sorted permutation for the total order rank desc / id desc (C11_order_determined, C11_order_is_rank_then_id). Tie: permutations of the match list and of the router insertion order, serialised actions compared byte for byte.",
   "design": "DESIGN.md section 4, C11",
   "note": "Trusted: as C05; serialisation is a function of the action (serde), insertion-order independence of the match SET is C01/C02's subject and is exercised here by correspondence only."},
+ "C09": {
+  "text": "Proof for every configuration (all flag combinations, any marketing list) and every URL satisfying explicit boolean side conditions: a literal rule matches its own URL (C09_literal_matches), the request matching string is invariant under key-stable permutations of the query (C09_param_order), under added/removed ignored marketing parameters (C09_marketing_ignored, C09_rule_matches_equivalent), under ASCII case swap with the case flag (C09_case, C09_case_rule); differing path or decoded parameters never match on the clean domain (C09_differs_no_match); rebuild is idempotent (C09_rebuild_idempotent, C09_rebuild_keeps_request); skipped parameters reach the target iff the pass flag (C09_skipped_iff_pass, C09_target_with_skipped); the separately defined encode sets agree and absorb (C09_encode_sets_agree, C09_encode_absorb[_sets]). Each excluded class has a refuted/witness lemma; four of them are listed known findings reproduced on the crate by committed corpus cases.",
+  "design": "DESIGN.md section 4, C09",
+  "note": "Trusted: Coq kernel; percent-encoding / form_urlencoded / http::uri::PathAndQuery are MODELLED (byte-class tables copied from the crates, validated by the correspondence run, two 256-byte sweeps by vm_compute); lossy UTF-8 decoding outside the model (precondition utf8_valid); harness + driver."},
 }
 REASON_PENDING = "not yet claimed: model and theorems under construction (DESIGN.md section 8 build order); no check is registered until it decides the property"
 
